@@ -158,20 +158,23 @@ TEXT = {
           "(any sequence of frontier commits, commits on other parents, pops; ghost history invariant proved by "
           "induction, Lemmas/LdbInv.lean): Get(id) of every version on the chain succeeds and reads, for every key, "
           "exactly the content at that commit (view_refines, view_refines_has); its ordered prefix scan is the "
-          "key-ordered list of exactly those entries (view_refines_scan_partial, via merged_scan_correct: two-way merged "
-          "iterator over sorted layers = sorted entries of the merged lookup) except empty-valued keys below the "
-          "frontier (F3b, negative theorems); unknown identifiers are refused, commits on a non-frontier parent change "
+          "key-ordered list of exactly those entries, at the frontier and below it, empty values included "
+          "(view_refines_scan, via merged_scan_correct: two-way merged iterator over sorted layers = sorted entries of the "
+          "merged lookup, seen through the delete-enabled iterator, which skips exactly the deleted entries; scan and "
+          "Get/Has agree key by key: view_scan_agrees_get; the same through a view with own writes over any root: "
+          "layer_scan_spec, version_view_refines); unknown identifiers are refused, commits on a non-frontier parent change "
           "nothing (add_parent_check), views of the same version agree across states (view_immutable), a cached overlay "
           "extended above its frontier equals the rebuilt one (cached_overlay_sound), replaying a view's change set "
           "gives its reads and the change set is independent of write order (changes_replay_*, changes_order_independent). "
-          "The model is tied to the code by the vdb stream (every read of every operation sequence compared) and a "
-          "shadow-map monitor that states the property directly.",
+          "The model is tied to the code by the vdb stream (every read of every operation sequence compared), a "
+          "shadow-map monitor that states the property directly and a scan-vs-Get/Has monitor on every view.",
   "design_ref": "§3 C07",
   "note": "Sequential model; caches are not state of the model (cache-free Get; the cached path is covered by "
           "cached_overlay_sound + correspondence); hypotheses of a frontier commit: height = frontier height + 1 < 2^64, "
-          "hash not on the chain, user keys outside the hash-index prefix; goleveldb snapshots trusted; scans of "
-          "historical views drop empty-valued keys (known finding F3b); patches_replay concerns the GetPatch table, "
-          "which the stream does not exercise.",
+          "hash not on the chain, user keys outside the hash-index prefix; goleveldb snapshots trusted; finding F3b "
+          "(scans of historical views dropped empty-valued keys) was fixed by 734ff49 on top of 522bff7 (iterators skip "
+          "deleted entries): the former negative theorems are replaced by positive witnesses and the model has no "
+          "skipDeleted layer any more; patches_replay concerns the GetPatch table, which the stream does not exercise.",
   "technique": "Lean 4 refinement proof (induction over reachable manager states) + differential correspondence on op sequences",
  },
  "C06": {
@@ -184,7 +187,9 @@ TEXT = {
           "point (branch_switch); tied to ldbManager by the pop-heavy vdb stream with views opened before the switch "
           "and re-read after it.",
   "design_ref": "§3 C06",
-  "note": "Observational, not raw, equality (tombstones of created keys remain in the raw frontier — witness example); "
+  "note": "Observational, not raw, equality (tombstones of created keys remain in the raw frontier — witness example — and "
+          "are skipped by every iterator since 522bff7: a regression shows as a listed-but-absent key in the vdb scan monitor "
+          "and as F22 in the ledger stream); "
           "pool and consensus-statistics clauses are correspondence only.",
   "technique": "Lean 4 proof (invariant over reachable manager states) + differential correspondence on op sequences",
  },
